@@ -213,6 +213,97 @@ def displacement (s0 s1 : Sys K) (boxReference : String) : Except String (List (
     | some rb => .ok (List.zipWith (dispWith rb) s0.pos s1.pos)
     | none => .error "value"
 
+/-! ### API level: what a caller may hand to `atomman.dvect` / `atomman.dmag` (the wrappers' own argument handling)
+
+  `np.asarray(pos, dtype=float64)`, the `ndim == 0` refusal, the `ndim == 1` → `[np.newaxis, :]` step, the broadcasting
+  chain, `pbc[0], pbc[1], pbc[2]` coerced to C `bint` (truth value), the typed-memoryview coercion `const double[:,:]`
+  of the kernel (any other rank: ValueError).  `Atomman/Generated/DvectSource.lean` is regenerated from the source in
+  terms of these primitives and proved equal to `dvectApi` / `dmag2Api` below (`Proofs/C02_Source.lean`). -/
+
+/-- the shapes `np.asarray(pos, dtype=float64)` can have that the real code handles in a defined way. -/
+inductive PosArg (K : Type) where
+  | scalar                        -- 0-d (a python number, an out-of-range index converted by `np.asarray`)
+  | flat (p : V3 K)               -- shape (3,): one point
+  | rows (l : List (V3 K))        -- shape (n,3)
+  | rank3 (n : Nat)               -- shape (n,3,3) (a fancy index of integer triples applied to `atoms.pos`)
+
+namespace PosArg
+def ndim : PosArg K → Nat
+  | .scalar => 0 | .flat _ => 1 | .rows _ => 2 | .rank3 _ => 3
+/-- `pos[np.newaxis, :]` (applied by the wrappers only when `ndim == 1`). -/
+def newaxis : PosArg K → PosArg K
+  | .flat p => .rows [p] | a => a
+/-- `len(pos)` (never asked of a 0-d value). -/
+def len : PosArg K → Nat
+  | .scalar => 0 | .flat _ => 3 | .rows l => l.length | .rank3 n => n
+/-- `np.broadcast_to(a, b.shape)` for an `a` of length 1; numpy's ValueError is `err:value`. -/
+def bcast (a b : PosArg K) : Except String (PosArg K) :=
+  match a, b with
+  | .rows [x], .rows l => .ok (.rows (l.map fun _ => x))
+  | .rows [_], .rank3 n => .ok (.rank3 n)
+  | .rank3 (.succ .zero), .rank3 n => .ok (.rank3 n)
+  | _, _ => .error "value"
+/-- the rows the kernel will see for an argument the wrapper accepts on its own (`none`: 0-d or rank 3). -/
+def rowsOf : PosArg K → Option (List (V3 K))
+  | .flat p => some [p] | .rows l => some l | _ => none
+end PosArg
+
+/-- `pbc[k]` handed to a `bint` parameter: the truth value of the entry; a missing entry is an unchecked read
+    (`@cython.boundscheck(False)`), `none`. -/
+def flagAt (pbc : List Int) (k : Nat) : Option Bool := pbc[k]?.map fun v => v != 0
+
+/-- the kernel call: both arguments are coerced to `const double[:,:]` (another rank: ValueError), the loop runs over
+    `pos_0.shape[0]` rows and reads row `i` of both (a shorter `pos_1` would be an unchecked read). -/
+def kernelCall {α : Type} (f : V3 K → V3 K → α) (a b : PosArg K) : Except String (List α) :=
+  match a, b with
+  | .rows l0, .rows l1 => if l1.length < l0.length then .error "undefined" else .ok (List.zipWith f l0 l1)
+  | _, _ => .error "value"
+
+/-- hand model of the argument handling shared by `dvect()` and `dmag()`: the pairs the kernel sees. -/
+def apiPairs (a0 a1 : PosArg K) : Except String (List (V3 K × V3 K)) :=
+  match a0, a1 with
+  | .scalar, _ => .error "type"
+  | _, .scalar => .error "type"
+  | .rank3 _, _ => .error "value"
+  | _, .rank3 _ => .error "value"
+  | .flat p, .flat q => .ok [(p, q)]
+  | .flat p, .rows l => .ok (l.map fun q => (p, q))
+  | .rows l, .flat q => match broadcast l [q] with | some r => .ok r | none => .error "value"
+  | .rows l0, .rows l1 => match broadcast l0 l1 with | some r => .ok r | none => .error "value"
+
+/-- the three flags the kernel receives (`none`: fewer than three entries, undefined behaviour of the real code). -/
+def apiFlags (pbc : List Int) : Option (Bool × Bool × Bool) :=
+  match pbc with
+  | a :: b :: c :: _ => some (a != 0, b != 0, c != 0)
+  | _ => none
+
+/-- `atomman.dvect(pos_0, pos_1, box, pbc)` as a caller sees it. -/
+def dvectApi (vects : M3 K) (pbc : List Int) (a0 a1 : PosArg K) : Except String (List (V3 K)) :=
+  match apiPairs a0 a1 with
+  | .error e => .error e
+  | .ok l => match apiFlags pbc with
+    | none => .error "undefined"
+    | some (px, py, pz) => .ok (l.map fun pq => dvect vects px py pz pq.1 pq.2)
+
+/-- `atomman.dmag(pos_0, pos_1, box, pbc)`, squared (the wrapper returns `dmag2_c(...) ** 0.5`). -/
+def dmag2Api (vects : M3 K) (pbc : List Int) (a0 a1 : PosArg K) : Except String (List K) :=
+  match apiPairs a0 a1 with
+  | .error e => .error e
+  | .ok l => match apiFlags pbc with
+    | none => .error "undefined"
+    | some (px, py, pz) => .ok (l.map fun pq => dmag2 vects px py pz pq.1 pq.2)
+
+/-- `System.natoms`. -/
+def Sys.natoms (s : Sys K) : Nat := s.pos.length
+/-- `System.pbc` as the wrapper reads it: a bool array, entries 0/1. -/
+def Sys.flags (s : Sys K) : List Int := [if s.px then 1 else 0, if s.py then 1 else 0, if s.pz then 1 else 0]
+
+/-- `System.pbc = value`: `np.asarray(value, dtype=bool)`, `assert pbc.shape == (3,)`. -/
+def pbcSetterArg (value : List Int) : Option (Bool × Bool × Bool) :=
+  match value with
+  | [a, b, c] => some (a != 0, b != 0, c != 0)
+  | _ => none
+
 /-! ### objects with state: `Box` and `System` are mutable, several Systems may hold the SAME Box
 
   `System(box=B)` keeps the object `B` itself, `System.box` hands it out, `Box.vects = …`,
